@@ -261,12 +261,32 @@ def run_shard(ctx):
         if len(chunks) <= 5:
             # the same chunks assembled by join on a coloured separator (a chunk or a text)
             (sep, sep_text, sep_want), items = chunks[0], chunks[1:]
-            joiner = sep if rng.random() < 0.5 else CHText(sep)
+            r_join = rng.random()
+            sep_model = [(c, sep_want) for c in sep_text]
+            if r_join < 0.4:
+                joiner = sep
+            elif r_join < 0.7:
+                joiner = CHText(sep)
+            else:
+                # a separator made of several differently coloured chunks: " <sep> |"
+                joiner = CHText(" ", sep, "|")
+                sep_model = [(" ", sgr.DEFAULT)] + sep_model + [("|", sgr.DEFAULT)]
             joined = joiner.join([c if rng.random() < 0.7 else CHText(c) for c, _, _ in items] + ["pl"])
             jmodel = []
             for k, (_, text, want) in enumerate(items):
-                jmodel += [(c, want) for c in text] + [(c, sep_want) for c in sep_text]
+                jmodel += [(c, want) for c in text] + sep_model
             jmodel += [(c, sgr.DEFAULT) for c in "pl"]
+            # ... and the same items handed over as ONE list of parts (strings, chunks and texts mixed)
+            listed = CHText()
+            listed += [c if k % 2 else CHText(c) for k, (c, _, _) in enumerate(chunks)] + ["pl"]
+            lmodel = [(ch, want) for _, text, want in chunks for ch in text] + [(c, sgr.DEFAULT) for c in "pl"]
+            ctx.count("texts_extended_by_a_list_of_parts")
+            try:
+                if sgr.cells(str(listed)) != lmodel or listed.plain_text() != "".join(c for c, _ in lmodel) \
+                        or CHText.strip_colors(str(listed)) != listed.plain_text():
+                    ctx.violation("list-of-parts-shows-wrong-text-or-colours", {"out": str(listed)[:120]}, case)
+            except sgr.SgrError as err:
+                ctx.violation("malformed-or-bleeding-sequence", {"err": str(err), "out": str(listed)[:80]}, case)
             ctx.count("joined_texts")
             try:
                 if sgr.cells(str(joined)) != jmodel:
